@@ -103,6 +103,9 @@ def cases(group):
                 if mode == "padded" and est != "default":
                     continue  # the padded mode does not use the linear estimator
                 yield dict(kind="general", X=group["X"], Y=group["Y"], mode=mode, est=est, int_dtype=bool(group.get("int_dtype")))
+                if not group.get("int_dtype") and est in ("default", "linreg-noint"):
+                    # the same fit on a USED estimator whose caller reuses (refills in place) its arrays
+                    yield dict(kind="general", X=group["X"], Y=group["Y"], mode=mode, est=est, int_dtype=False, used=True)
     else:
         dx, dy = group["dx"], group["dy"]
         dmax = max(dx, dy)
@@ -115,6 +118,8 @@ def cases(group):
             for mode in ("projector", "padded"):
                 for est in (ESTS if mode == "projector" else ["default"]):
                     yield dict(kind="planted", X=group["X"], Q=Q, mode=mode, est=est)
+                    if est == "default":
+                        yield dict(kind="planted", X=group["X"], Q=Q, mode=mode, est=est, used=True)
 
 
 def _estimator(spec, X=None, Y=None):
@@ -185,7 +190,16 @@ def check(case):
             pol.fit(Xp0, Yp0)
             pol.predict(Xp0)
             Xin = X.astype(np.int64) if case.get("int_dtype") else X
-            model.fit(Xin.copy(), Y.copy())
+            if case.get("used"):
+                bX = np.ascontiguousarray(np.cos(np.arange(n * dx, dtype=float).reshape(n, dx) * 1.1) * 2.0 - 0.5)
+                bY = np.ascontiguousarray(np.sin(np.arange(n * dy, dtype=float).reshape(n, dy) * 0.9) * 3.0 + 1.0)
+                model.fit(bX, bY)
+                model.predict(bX)
+                bX[...] = X
+                bY[...] = Y
+                model.fit(bX, bY)
+            else:
+                model.fit(Xin.copy(), Y.copy())
             pred = np.asarray(model.predict(Xin.copy()), float)
             W = np.asarray(model.coef_, float).T  # the map Omega: prediction = X_(padded) @ W
         except Exception as e:
